@@ -438,7 +438,10 @@ class Check(Property):
         except Exception as exc:  # noqa: BLE001
             return [f"{tag}: building the chain raised {type(exc).__name__}: {exc}"]
         try:
-            groups[-1].add_groups(names[0])
+            # (the closing call also names an innocent group first: a refused call installs nothing)
+            extra = r.Group(f"CY{c['i']}_extra")
+            extra.add_units("fathom")
+            groups[-1].add_groups(extra.name, names[0])
             v.append(f"{tag}: closing the cycle was accepted")
         except ValueError:
             pass
